@@ -9,6 +9,8 @@ use crate::arena::{Arena, ArenaString};
 use crate::process::{
     OutputPolicy, ProcessCaps, ProcessError, ProcessResult, ProcessSpec, ProcessStream, StdinPolicy,
 };
+#[cfg(feature = "verif-hooks")]
+use crate::verif_hooks::{self as vh, process_points as pp};
 
 pub fn run_host_process<'arena>(
     spec: &ProcessSpec<'_>,
@@ -27,6 +29,8 @@ pub fn run_host_process<'arena>(
     configure_stdio(&mut command, spec);
 
     let mut child = command.spawn().map_err(ProcessError::SpawnFailed)?;
+    #[cfg(feature = "verif-hooks")]
+    vh::point(pp::SPAWNED, u64::from(child.id()));
     let overflow = Arc::new(AtomicU8::new(0));
 
     let writer = spawn_stdin_writer(&mut child, spec.stdin);
@@ -99,6 +103,8 @@ fn spawn_stdin_writer(
     let mut child_stdin = child.stdin.take()?;
     let input = text.as_bytes().to_vec();
     Some(thread::spawn(move || {
+        #[cfg(feature = "verif-hooks")]
+        vh::point(pp::WRITER_START, 0);
         if input.is_empty() {
             return Ok(());
         }
@@ -143,22 +149,32 @@ fn read_captured_stream<R: Read>(
     overflow_code: u8,
     overflow: &Arc<AtomicU8>,
 ) -> io::Result<std::vec::Vec<u8>> {
+    #[cfg(feature = "verif-hooks")]
+    vh::point(pp::READER_START, u64::from(overflow_code));
     let mut buf = std::vec::Vec::with_capacity((cap.min(8_192)) as usize);
     let mut chunk = [0u8; 8_192];
     let max = cap as usize;
 
     loop {
+        #[cfg(feature = "verif-hooks")]
+        vh::point(pp::READER_BEFORE_READ, u64::from(overflow_code));
         let n = reader.read(&mut chunk)?;
+        #[cfg(feature = "verif-hooks")]
+        vh::point(pp::READER_AFTER_READ, u64::from(overflow_code) | ((n as u64) << 8));
         if n == 0 {
             break;
         }
         if buf.len().saturating_add(n) > max {
             let _ = overflow.compare_exchange(0, overflow_code, Ordering::SeqCst, Ordering::SeqCst);
+            #[cfg(feature = "verif-hooks")]
+            vh::point(pp::READER_AFTER_FLAG, u64::from(overflow_code));
             break;
         }
         buf.extend_from_slice(&chunk[..n]);
     }
 
+    #[cfg(feature = "verif-hooks")]
+    vh::point(pp::READER_END, u64::from(overflow_code));
     Ok(buf)
 }
 
@@ -173,19 +189,29 @@ fn wait_for_child(
     let timeout = Duration::from_millis(u64::from(timeout_ms));
 
     loop {
+        #[cfg(feature = "verif-hooks")]
+        vh::point(pp::WAIT_TOP, 0);
         let overflow_code = overflow.load(Ordering::Acquire);
         if overflow_code != 0 {
             terminate_child(child);
             return Err(ProcessError::OutputLimitExceeded(stream_from_code(overflow_code)));
         }
 
+        #[cfg(feature = "verif-hooks")]
+        vh::point(pp::WAIT_BEFORE_TRYWAIT, 0);
         if let Some(status) = child.try_wait().map_err(ProcessError::SpawnFailed)? {
             return Ok(status);
         }
+        #[cfg(feature = "verif-hooks")]
+        vh::point(pp::WAIT_BEFORE_CLOCK, 0);
+        #[cfg(feature = "verif-hooks")]
+        let timeout = vh::effective_timeout(timeout);
         if start.elapsed() >= timeout {
             terminate_child(child);
             return Err(ProcessError::Timeout);
         }
+        #[cfg(feature = "verif-hooks")]
+        vh::point(pp::WAIT_BEFORE_SLEEP, 0);
         thread::sleep(sleep_for);
     }
 }
@@ -193,9 +219,13 @@ fn wait_for_child(
 fn terminate_child(child: &mut Child) {
     let _ = child.kill();
     let _ = child.wait();
+    #[cfg(feature = "verif-hooks")]
+    vh::point(pp::TERMINATED, 0);
 }
 
 fn join_writer(writer: Option<JoinHandle<io::Result<()>>>) -> io::Result<()> {
+    #[cfg(feature = "verif-hooks")]
+    vh::point(pp::JOIN_BEFORE, 0);
     match writer {
         Some(handle) => handle.join().expect("stdin writer thread should not panic"),
         None => Ok(()),
@@ -212,11 +242,15 @@ fn join_capture<'arena>(
         return Ok(None);
     };
 
+    #[cfg(feature = "verif-hooks")]
+    vh::point(pp::JOIN_BEFORE, u64::from(stream_code(stream)));
     let bytes = handle
         .join()
         .expect("capture reader thread should not panic")
         .map_err(ProcessError::SpawnFailed)?;
 
+    #[cfg(feature = "verif-hooks")]
+    vh::point(pp::JOIN_AFTER, u64::from(stream_code(stream)));
     if overflow.load(Ordering::Acquire) == stream_code(stream) {
         return Err(ProcessError::OutputLimitExceeded(stream));
     }
